@@ -827,8 +827,16 @@ async fn ensure_proposition(
     // semantic tuple (§59), so an existing tuple is bound rather than
     // duplicated — and binding it changes nothing, because the tuple is
     // immutable (§61).
-    if let Some(existing) = store.find_proposition(&key).await? {
-        let id = ElementId::new(ElementKind::Proposition, existing._id);
+    // A tuple an earlier clause of this same block staged is not in the index
+    // yet, so it is asked for first.
+    let existing = match tx.staged_proposition(&key) {
+        Some(id) => Some(id),
+        None => store
+            .find_proposition(&key)
+            .await?
+            .map(|row| ElementId::new(ElementKind::Proposition, row._id)),
+    };
+    if let Some(id) = existing {
         if let Some(expected) = expect_version {
             tx.expect_version(id, expected).await?;
         }
